@@ -180,7 +180,9 @@ def literal_stream(ctx, r):
 # ------------------------------------------------------------------------------------------------ generators
 
 SPECIAL_DESCS = ['UBER TRIP', 'uber trip 12.50', 'SAY "HI" STORE', "JOE'S DINER #45", 'A\\B IMPORTS', 'SHOP [WEB] 0042', 'AMAZON.COM*MK1',
-                 'NETFLIX  COM', 'LYFT RIDE 1', 'COSTCO WHSE #123', 'TAB\tSEP', 'CAFÉ ROMA', 'SEATTLE COFFEE', 'X', 'PAYPAL *UBER']
+                 'NETFLIX  COM', 'LYFT RIDE 1', 'COSTCO WHSE #123', 'TAB\tSEP', 'CAFÉ ROMA', 'SEATTLE COFFEE', 'X', 'PAYPAL *UBER',
+                 # merchants as statements print them outside ASCII: BMP (kana, kanji, symbols) and beyond it (U+20BB7, emoji)
+                 '\U00020bb7野家 SHIBUYA', '\U0001f600 CAFE 12', 'CAFE \u2615 ROMA', 'スターバックス 渋谷', 'SQ *\U0001f355 PIZZA', 'ÅNGSTRÖM №5']
 
 
 def gen_desc(r):
@@ -236,6 +238,12 @@ def gen_pattern(r, desc, structured=False):
     sf = structured_forms(r, tok, other, words, hit)
     if r.random() < (0.6 if structured else 0.1):
         return r.choice(sf)()
+    wide = [ch for ch in desc if ord(ch) > 127]
+    if wide and r.random() < 0.6:
+        # the pattern names the characters of the description that are not ASCII: alone, in a class, next to a word
+        c = r.choice(wide)
+        return r.choice([c, '[' + ''.join(dict.fromkeys(wide)) + ']', c + r'\s*' + tok if hit else c, tok + '.*' + c, '(' + c + ')+', c + '{1,2}',
+                         ''.join(ch for ch in desc.split()[0])])
     k = r.random()
     forms = [
         lambda: tok,
